@@ -432,6 +432,10 @@ def fan_triangulation(k):
 # vertices to the requested positions through the public container API. Everything a check then asks must describe
 # the CURRENT geometry; code that silently reuses an attribute computed earlier gives itself away.
 STALE = [False]
+# "Warm attribute blackboard" mode (tasks carrying "_warm_blackboard"): every persistent quantity of mouette.attributes
+# is requested on the mesh - on its final geometry, so every cached value is correct - before the check starts.
+# An answer must not depend on which (valid) attributes happen to be cached.
+WARM = [False]
 
 
 def _p3(p):
@@ -464,6 +468,8 @@ def request_all_persistent_attributes(mesh):
 
 
 def _finish(mesh, points):
+    if WARM[0]:
+        request_all_persistent_attributes(mesh)
     if STALE[0]:
         import mouette as M
         request_all_persistent_attributes(mesh)
